@@ -420,7 +420,9 @@ pub fn run(o: &DetectOpts) -> serde_json::Value {
             }
             match k % 4 {
                 1 | 3 => {
-                    let p = 500_000 + rng.below(b.len() - 500_000);
+                    // the anomaly right at the edge of the pre-checked prefix (first case of the variant: exactly at 500,000;
+                    // second: the last byte inside the prefix), then anywhere after it
+                    let p = match k / 4 { 0 => 500_000, 1 => 499_999, _ => 500_000 + rng.below(b.len() - 500_000) };
                     b[p] = if rng.chance(1, 2) { 0xe9 } else { 0x98 };
                 }
                 2 => {
